@@ -87,8 +87,8 @@ Section Ref.
     intros W EO EA K OK NC U [E RS]. unfold refill_retry. rewrite NC.
     set (r' := refill (classes x0) s (get_reg k (regs x0))).
     set (rs := if codec then reset_nested top (built (classes x0) s) (regs x0) else regs x0).
-    assert (I': inv sites cl (St (classes x0) ((k, r') :: rs))).
-    { split; [exact E|]. intros k2 s2 t2 c2 K2 Hin. cbn in *. destruct (rkey_eqb k2 k) eqn:EQ.
+    assert (I': inv sites cl (mark codec (built (classes x0) s) (St (classes x0) ((k, r') :: rs) (comp x0) (cur x0)))).
+    { apply inv_mark. split; [exact E|]. intros k2 s2 t2 c2 K2 Hin. cbn in *. destruct (rkey_eqb k2 k) eqn:EQ.
       - apply rkey_eqb_eq in EQ. subst k2. rewrite K in K2. injection K2 as <-.
         apply refill_sound in Hin; [|rewrite E; exact W|rewrite E; exact OK].
         destruct Hin as [Hin|Hin]; [|exact Hin]. eapply RS; eassumption.
@@ -111,6 +111,7 @@ Section Ref.
   Proof.
     intros W EO EA K OK NC U I. unfold field_body.
     destruct (reg_get t (get_reg k (regs x))) as [c|] eqn:G; [|apply refill_retry_ref; assumption].
+    destruct (has_method codec x c); [|apply refill_retry_ref; assumption].
     assert (C: carries cl s c t).
     { destruct I as [E RS]. rewrite <- E. eapply RS; [exact K | apply reg_get_In; exact G]. }
     rewrite (carriers_unique cl s t c W OK U C). exact (EA _ c I).
@@ -157,7 +158,34 @@ Section Ref.
     - destruct (assoc (s_fid s) inp) as [[t|]|] eqn:A; [|reflexivity|reflexivity].
       rewrite (field_body_ref (classes x) enter eref top codec k s t x W EO EA K OK (NCR j s Hj) (UA j s t Hj F OK A) I).
       reflexivity.
-    - apply (loop_body_ref (classes x)); assumption.
+    - apply (loop_body_ref (classes x) (fun x1 v => enter (mark codec [v] x1) v) eref); [| |exact I].
+      + intros x1 c I1. apply EO, inv_mark, I1.
+      + intros x1 c I1. apply EA, inv_mark, I1.
+  Qed.
+
+  (* one call from ANY sound state - whatever the format of the call and whatever per-format methods earlier calls
+     left compiled ([cur], [comp] are unconstrained) *)
+  Lemma decode1_ref x i inp present :
+    wf (classes x) -> reg_sound sites x -> uniq_all (classes x) inp -> no_crash ->
+    snd (decode1 acc sites x i inp present) = ref_decode (classes x) i inp present.
+  Proof.
+    intros W RS UA NCR. unfold decode1, ref_decode.
+    destruct (nth_error sites i) as [s|] eqn:Es; [|reflexivity].
+    exact (dispatcher_ref (S (S (length (classes x)))) i (s_codec s) (i, 0) s x inp present W RS Es (ex_intro _ i Es) UA NCR).
+  Qed.
+
+  (* the same call through the dispatcher compiled for another format (from_msgpack, orjson's from_json, ...): the
+     class-level registries are shared with format 0, the variants' per-format methods are compiled on demand, a
+     registered variant without its own method is a miss (refill, retry) - the answer is the reference answer all the same *)
+  Theorem decode_ref_fmt pre f i inp present :
+    uniq_all (defs pre) inp -> no_crash ->
+    snd (step acc sites (final acc sites pre) (DecodeF f i inp present)) = Some (ref_decode (defs pre) i inp present).
+  Proof.
+    intros UA NCR. pose proof (registry_invariant acc sites pre) as RS. pose proof (wf_defs pre) as W.
+    pose proof (final_classes acc sites pre) as CL. set (x := final acc sites pre) in *.
+    rewrite <- CL in W, UA |- *. cbn [step].
+    pose proof (decode1_ref (set_cur f x) i inp present W RS UA NCR) as H.
+    destruct (decode1 acc sites (set_cur f x) i inp present) as [x' o]. cbn [snd] in *. rewrite H. reflexivity.
   Qed.
 
   (* AFTER ANY HISTORY the answer of the real (stateful) dispatcher is the reference answer - with nested class-level
@@ -174,6 +202,40 @@ Section Ref.
     destruct (dispatcher acc sites (S (S (length (classes x)))) i (s_codec s) (i, 0) s x inp present) as [x' o].
     cbn [snd] in *. rewrite H. reflexivity.
   Qed.
+  (* entering a class in the reference semantics: a leaf, or the class's own dispatcher (either mode) *)
+  Definition ref_enter (cl: list cls) (fuel: nat) (inp: inkeys) (present: list nat) (c: nat) : outcome :=
+    match config_site sites c with
+    | None => leaf acc cl c present
+    | Some (_, sj) => ref_disp cl fuel sj inp present
+    end.
+
+  (* the relational form WITHOUT plain_carriers: the unique class carrying the tag is ENTERED - an instance / its own error
+     if it is a plain class, the answer of its own dispatcher (on the same input) if it declares one; nobody -> NotFound *)
+  Theorem registry_nested pre i s inp t present o :
+    nth_error sites i = Some s -> s_field s = true -> site_ok s (length (defs pre)) = true ->
+    assoc (s_fid s) inp = Some (Hashable t) -> uniq_all (defs pre) inp ->
+    snd (step acc sites (final acc sites pre) (Decode i inp present)) = Some o ->
+    (forall c, carries (defs pre) s c t -> o = ref_enter (defs pre) (S (length (defs pre))) inp present c)
+    /\ ((forall c, ~ carries (defs pre) s c t) -> o = ONotFound).
+  Proof.
+    intros Hs Hf OK HT UA E. rewrite (decode_ref pre i inp present UA no_crash_always) in E. injection E as <-.
+    pose proof (wf_defs pre) as W. unfold ref_decode. rewrite Hs. cbn [ref_disp]. rewrite OK. cbn [negb]. rewrite Hf, HT.
+    split.
+    - intros c C. rewrite (carriers_unique (defs pre) s t c W OK (UA i s t Hs Hf OK HT) C). reflexivity.
+    - intros NO. rewrite (carriers_nil (defs pre) s t W OK NO). reflexivity.
+  Qed.
+
+  (* no-field mode WITHOUT no_nested: the first class, in walk order (subclasses before supertypes), whose entering yields
+     an instance - a plain class that accepts, or a nested dispatcher that finds one *)
+  Theorem nofield_nested pre i s inp present :
+    nth_error sites i = Some s -> s_field s = false -> site_ok s (length (defs pre)) = true ->
+    uniq_all (defs pre) inp ->
+    snd (step acc sites (final acc sites pre) (Decode i inp present))
+    = Some (ref_loop (ref_enter (defs pre) (S (length (defs pre))) inp present) (variants (defs pre) s)).
+  Proof.
+    intros Hs Hf OK UA. rewrite (decode_ref pre i inp present UA no_crash_always).
+    unfold ref_decode. rewrite Hs. cbn [ref_disp]. rewrite OK. cbn [negb]. rewrite Hf. reflexivity.
+  Qed.
 End Ref.
 
 (* same classes => same answer, whatever was decoded, created or registered before: history independence at full
@@ -185,6 +247,20 @@ Corollary history_independent_ref acc sites pre1 pre2 i inp present :
 Proof.
   intros E UA NCR. rewrite (decode_ref acc sites pre1 i inp present UA NCR).
   rewrite E in UA. rewrite (decode_ref acc sites pre2 i inp present UA NCR). rewrite E. reflexivity.
+Qed.
+
+(* ... and the format of the call is irrelevant too: from_dict, from_msgpack, from_json after ANY two histories (with
+   calls in any formats) that defined the same classes *)
+Corollary format_independent acc sites pre1 pre2 f1 f2 i inp present :
+  defs pre1 = defs pre2 -> uniq_all sites (defs pre1) inp -> no_crash sites ->
+  snd (step acc sites (final acc sites pre1) (DecodeF f1 i inp present))
+  = snd (step acc sites (final acc sites pre2) (DecodeF f2 i inp present))
+  /\ snd (step acc sites (final acc sites pre1) (DecodeF f1 i inp present))
+     = snd (step acc sites (final acc sites pre2) (Decode i inp present)).
+Proof.
+  intros E UA NCR. rewrite (decode_ref_fmt acc sites pre1 f1 i inp present UA NCR).
+  rewrite E in UA. rewrite (decode_ref_fmt acc sites pre2 f2 i inp present UA NCR).
+  rewrite (decode_ref acc sites pre2 i inp present UA NCR). rewrite E. split; reflexivity.
 Qed.
 
 (* computable form of the hypothesis (what the harness evaluates) *)
@@ -208,7 +284,7 @@ Fixpoint ref_agrees (sites: list site) (cl: list cls) (ops: list op) (observed: 
   match ops, observed with
   | [], [] => true
   | Define ps tg tu rq ke :: r, _ :: obs => ref_agrees sites (cl ++ [define cl ps tg tu rq ke]) r obs
-  | Decode i inp present :: r, o :: obs =>
+  | Decode i inp present :: r, o :: obs | DecodeF _ i inp present :: r, o :: obs =>
       (if uniq_allb sites cl inp && forallb (fun sj => negb (crash_on_refill sj)) sites then oout_eqb (Some (ref_decode acc_req sites cl i inp present)) o else true)
       && ref_agrees sites cl r obs
   | _ :: r, _ :: obs => ref_agrees sites cl r obs
